@@ -226,6 +226,20 @@ def case_from_json(d):
     return norm_case(d)
 
 
+def corpus_cases(pid):
+    """the committed witnesses / scenarios of a property, as pipeline cases (run first)"""
+    import json
+    d = core.CORPUS / pid
+    out = []
+    for f in sorted(d.glob("*.json")) if d.exists() else []:
+        w = json.loads(f.read_text())
+        if isinstance(w.get("case"), dict) and "data_hex" in w["case"]:
+            c = case_from_json(w["case"])
+            c["_name"] = f.name
+            out.append(c)
+    return out
+
+
 # ---------------------------------------------------------------------------
 # generic projection runner
 
